@@ -44,6 +44,17 @@ func c17Sites(r *wk.Rand, s *gen.Shape, raw any, env *gen.Env, path, chain []str
 				return c17Sites(r, o, raw, env.Push(s), path, cp(chain, "scope"), set, depth+1)
 			}
 		}
+	case gen.KAny:
+		// free-form data: a value that "any" cannot hold (nil, a struct), below keys that are long (and share a long
+		// prefix with a sibling), below integer keys, below list indices - the path names each of them as written
+		longKey, sibling := strings.Repeat("k", 70)+"-tail", strings.Repeat("k", 70)+"-other"
+		anySite := func(v any, more ...string) {
+			out = append(out, c17Site{path: cp(path, more...), chain: cp(chain, "any"), kind: "unsupported-in-any", apply: func() { set(v) }})
+		}
+		anySite(map[string]any{sibling: int64(1), longKey: []any{int64(1), nil}}, longKey, "1")
+		anySite(map[any]any{int64(8443): struct{}{}, int64(1): "x"}, "8443")
+		anySite([]any{"a", map[string]any{"k": nil}}, "1", "k")
+		anySite(map[string]any{"outer": map[any]any{int64(-7): []any{nil}}}, "outer", "-7", "0")
 	case gen.KInt:
 		leaf("wrong-type", "not-a-number", true)
 		leaf("wrong-type", []any{}, true)
@@ -348,6 +359,10 @@ func runC17(c *wk.Ctx) {
 	c.Floor("op:Validate", 1000)
 	n := c.N(12000, 2400000)
 	c.Cases(n, func(idx int64, r *wk.Rand) {
+		if idx == 9 {
+			c17StructMissing(c)
+			return
+		}
 		if idx%5 == 4 {
 			c17StructCase(c, r, idx)
 			return
